@@ -15,7 +15,21 @@ use hickory_net::proto::dnssec::rdata::{DNSSECRData, SigInput, NSEC3, RRSIG};
 use hickory_net::proto::dnssec::{Algorithm, Nsec3HashAlgorithm, Proof};
 use hickory_net::proto::op::{Query, ResponseCode};
 use hickory_net::proto::rr::{rdata, Name, RData, Record, RecordType, SerialNumber};
+use futures_util::StreamExt;
+use hickory_net::proto::dnssec::crypto::Ed25519SigningKey;
+use hickory_net::proto::dnssec::rdata::{DNSKEY, DS};
+use hickory_net::proto::dnssec::{DigestType, DnssecSigner, SigningKey};
+use hickory_net::proto::op::{Message, SerialMessage};
+use hickory_net::proto::rr::LowerName;
+use hickory_net::xfer::Protocol;
+use hickory_net::BufDnsStreamHandle;
+use hickory_server::dnssec::NxProofKind;
+use hickory_server::server::VerifContext;
+use hickory_server::store::in_memory::InMemoryZoneHandler;
+use hickory_server::zone_handler::{AxfrPolicy, Catalog, ZoneHandler, ZoneType};
 use std::collections::{BTreeMap, BTreeSet};
+use std::net::{IpAddr, Ipv4Addr, SocketAddr};
+use std::sync::Arc;
 use vph::*;
 
 type Lbl = Vec<u8>;
@@ -95,6 +109,24 @@ fn show_name(n: &Nm) -> String {
 fn to_name(n: &Nm) -> Name {
     Name::from_labels(n.iter().map(|l| l.as_slice())).expect("valid name")
 }
+/// `pbytes` term with a monomorphic spine (C09/Check.v `PBm`), cheaper for Coq to elaborate
+fn coq_pbm(b: &[u8]) -> String {
+    let mut t = String::from("IN");
+    let ws: Vec<u64> = b
+        .chunks(7)
+        .map(|c| {
+            let mut w = 0u64;
+            for (j, x) in c.iter().enumerate() {
+                w |= (*x as u64) << (8 * j);
+            }
+            w
+        })
+        .collect();
+    for w in ws.iter().rev() {
+        t = format!("(IC {} {})", w, t);
+    }
+    format!("(PBm {} {})", b.len(), t)
+}
 fn coq_name(n: &Nm) -> String {
     // wire form without the terminating zero
     let mut w = vec![];
@@ -102,7 +134,7 @@ fn coq_name(n: &Nm) -> String {
         w.push(l.len() as u8);
         w.extend_from_slice(l);
     }
-    coq_pb(&w)
+    coq_pbm(&w)
 }
 
 // ---------------------------------------------------------------- hashing / base32hex
@@ -192,6 +224,11 @@ impl Zone {
     }
     /// the genuine NSEC3 chain (RFC 5155 7.1), sorted by hash
     fn chain(&self) -> Vec<(Nm, Rec)> {
+        self.chain_opt(false)
+    }
+    /// `skip_star_ent`: leave out `*.<apex>` when it is only an empty non-terminal (what the
+    /// server's closure loop does, known finding C09-server-chain-star-ent)
+    fn chain_opt(&self, skip_star_ent: bool) -> Vec<(Nm, Rec)> {
         let mut names: BTreeMap<Nm, Vec<u16>> = BTreeMap::new();
         for n in self.auth_names() {
             let t = self.types(&n).unwrap();
@@ -214,6 +251,9 @@ impl Zone {
         for n in names.keys().cloned().collect::<Vec<_>>() {
             let mut p = parent(&n);
             while p.len() > self.apex.len() {
+                if skip_star_ent && p == star(&self.apex) {
+                    break;
+                }
                 names.entry(p.clone()).or_default();
                 p = parent(&p);
             }
@@ -317,8 +357,10 @@ fn run_impl(i: &Input) -> u8 {
     }
 }
 
-/// the finite hash table shipped to the model: every suffix of the query name and its wildcard
-fn table(i: &Input) -> Vec<(Nm, Vec<u8>)> {
+/// the finite hash table shipped to the model: (code, name, digest) for every suffix of the
+/// query name (code 2k) and for the wildcard child (code 2k+1) of every suffix that some record
+/// matches — all the implementation can hash
+fn table(i: &Input) -> Vec<(u32, Nm, Vec<u8>)> {
     let mut t = vec![];
     let Some(first) = i.recs.first() else { return t };
     if first.iter > i.hard || first.iter > i.soft {
@@ -327,10 +369,12 @@ fn table(i: &Input) -> Vec<(Nm, Vec<u8>)> {
     let q = lower(&i.q);
     for k in 0..=q.len() {
         let s = q[k..].to_vec();
-        t.push((s.clone(), h(&first.salt, first.iter, &s)));
-        if enc_len(&s) + 2 <= 255 {
+        let hs = h(&first.salt, first.iter, &s);
+        let l = b32(&hs);
+        t.push((2 * k as u32, s.clone(), hs));
+        if enc_len(&s) + 2 <= 255 && i.recs.iter().any(|r| !r.owner.is_empty() && r.owner[0].eq_ignore_ascii_case(&l)) {
             let w = star(&s);
-            t.push((w.clone(), h(&first.salt, first.iter, &w)));
+            t.push((2 * k as u32 + 1, w.clone(), h(&first.salt, first.iter, &w)));
         }
     }
     t
@@ -343,8 +387,8 @@ fn coq_case(i: &Input, obs: u8) -> String {
             coq_name(&r.owner),
             r.optout,
             r.iter,
-            coq_pb(&r.salt),
-            coq_pb(&r.next),
+            coq_pbm(&r.salt),
+            coq_pbm(&r.next),
             coq_list(r.types.iter().map(|t| t.to_string()))
         )
     }));
@@ -353,12 +397,14 @@ fn coq_case(i: &Input, obs: u8) -> String {
         None => "0".into(),
     }));
     let mut tbl = vec![];
-    for (_, hh) in table(i) {
+    let mut codes = vec![];
+    for (c, _, hh) in table(i) {
         assert_eq!(hh.len(), 20);
+        codes.push(c.to_string());
         tbl.extend(hh);
     }
     format!(
-        "Case {} {} {} {} {} {} {} {} {} {}",
+        "Case {} {} {} {} {} {} {} {} {} {} {}",
         coq_name(&i.q),
         i.qt,
         match &i.soa {
@@ -370,7 +416,8 @@ fn coq_case(i: &Input, obs: u8) -> String {
         recs,
         i.soft,
         i.hard,
-        coq_pb(&tbl),
+        coq_list(codes),
+        coq_pbm(&tbl),
         obs
     )
 }
@@ -628,6 +675,16 @@ fn gen_zone(r: &mut Rng) -> Zone {
         t.retain(|x| *x == T_NS || *x == T_DS);
         if r.chance(1, 2) {
             rrs.entry(with(b"a", &c)).or_default().insert(T_A);
+        }
+    }
+    // a CNAME owns nothing else (the store refuses the mixture)
+    for (_, t) in rrs.iter_mut() {
+        if t.contains(&T_CNAME) && t.len() > 1 {
+            if t.contains(&T_NS) || t.contains(&T_SOA) {
+                t.remove(&T_CNAME);
+            } else {
+                t.retain(|x| *x == T_CNAME);
+            }
         }
     }
     // nothing authoritative below a DNAME
@@ -1136,8 +1193,382 @@ fn oracle(p: &Probe, obs: u8) -> (Option<String>, Option<String>) {
     (None, None)
 }
 
+// ---------------------------------------------------------------- corpus: fixed cases, independent of the generator
+
+const CORPUS_BASE: u64 = 1 << 32;
+
+fn pn(s: &str) -> Nm {
+    s.split('.').filter(|l| !l.is_empty()).map(|l| l.as_bytes().to_vec()).collect()
+}
+
+/// (tag, zone rrs "name:types ...", apex, salt hex, iterations, opt-out,
+///  qname, qtype, soa, rcode, answers, records ("ideal" or chain owner names), soft, hard)
+type CorpusRow = (
+    &'static str,
+    &'static str,
+    &'static str,
+    &'static str,
+    u16,
+    bool,
+    &'static str,
+    u16,
+    &'static str,
+    u16,
+    &'static [Option<u8>],
+    &'static str,
+    u16,
+    u16,
+);
+
+const CORPUS: &[CorpusRow] = &[
+    // ---- the confirmed defects (known_findings.json), one minimal witness each
+    ("W0-wraparound", "*.z:5 z:2,6", "z", "", 0, true, "a.a.z", 43, "z", 3, &[], "z", 2, 5),
+    ("W1-apex-arm", "c.a.z:16 z:1,2,6", "z", "", 2, false, "z", 1, "z", 0, &[], "a.z", 2, 5),
+    ("W2-shortcut", "*.a.z:5 z:2,6", "z", "ab", 1, false, "a.z", 15, "z", 0, &[None, Some(1)], "a.z", 3, 3),
+    ("W3-delegation", "c.a.z:2 z:2,6,15", "z", "", 2, false, "c.a.z", 16, "z", 0, &[], "c.a.z", 5, 10),
+    ("W4-zone-unchecked", "b.z:1 z:1,2,6", "z", "", 1, false, "a.a.y", 6, "z", 0, &[None, Some(1)], "b.z", 5, 10),
+    ("W5-optout-nxdomain", "a.z:2 z:2,6", "z", "ab", 1, true, "a.z", 1, "z", 3, &[], "z", 2, 5),
+    ("W6-ds-optout-no-encloser", "*.a.z:15 a.b.z:2 a.z:2,43 z:1,2,6", "z", "ab", 2, true, "a.a.a.z", 43, "z", 0, &[], "z", 5, 10),
+    ("W7-dname-encloser", "a.a.z:39 a.b.z:2 b.a.z:39 z:1,2,6", "z", "", 1, false, "b.a.a.z", 15, "z", 3, &[], "a.a.z b.a.z", 100, 500),
+    ("W8-ds-optout-incomplete", "*.a.z:1 a.b.z:1,15,28 b.*.c.z:15 z:2,6", "z", "", 3, true, "a.a.c.b.z", 43, "z", 0, &[], "ideal", 5, 10),
+    // ---- correct proofs (also the Examples in coq/C09/Props.v)
+    ("G0-nxdomain", "b.a.z:2,43 c.z:5 z:2,6", "z", "", 1, false, "a.c.z", 16, "z", 3, &[], "ideal", 2, 5),
+    ("G1-nodata", "b.z:1 z:2,6", "z", "", 0, false, "b.z", 15, "z", 0, &[], "ideal", 5, 10),
+    ("G2-wildcard-nodata", "*.b.b.z:1 b.c.a.z:5 z:2,6", "z", "", 2, false, "x.b.b.z", 15, "z", 0, &[], "ideal", 100, 500),
+    ("G3-wildcard-answer", "a.b.a.z:1 b.a.z:2 z:2,6", "z", "", 0, false, "b.z", 2, "z", 0, &[None, Some(1)], "ideal", 3, 3),
+    // RFC 5155 appendix B.1 shape: deep query, three distinct records
+    ("G4-nxdomain-deep", "a.z:1 b.a.z:16 *.c.z:1 x.y.c.z:1 z:2,6", "z", "aabbccdd", 5, false, "a.b.b.a.z", 1, "z", 3, &[], "ideal", 5, 10),
+];
+
+fn corpus_probe(k: usize) -> Probe {
+    let (tag, rrs, apex, salt, iter, optout, q, qt, soa, rcode, answers, recs, soft, hard) = CORPUS[k];
+    let mut m: BTreeMap<Nm, BTreeSet<u16>> = BTreeMap::new();
+    for item in rrs.split_whitespace() {
+        let (n, ts) = item.split_once(':').unwrap();
+        m.insert(pn(n), ts.split(',').map(|t| t.parse().unwrap()).collect());
+    }
+    let z = Zone { apex: pn(apex), rrs: m, salt: unhex(salt), iter, optout };
+    let chain = z.chain();
+    let q = pn(q);
+    let answers = answers.to_vec();
+    let wl = answers.iter().find_map(|a| *a);
+    let (list, ideal) = if recs == "ideal" {
+        (ideal_proof(&z, &chain, &q, qt, rcode, wl), true)
+    } else {
+        (
+            recs.split_whitespace()
+                .map(|n| chain.iter().find(|(m, _)| *m == pn(n)).unwrap_or_else(|| panic!("corpus {tag}: no chain record {n}")).1.clone())
+                .collect(),
+            false,
+        )
+    };
+    Probe {
+        z,
+        i: Input { q, qt, soa: if soa.is_empty() { None } else { Some(pn(soa)) }, rcode, answers, recs: list, soft, hard },
+        kind: format!("corpus:{tag}"),
+        genuine: true,
+        ideal,
+    }
+}
+
+// ---------------------------------------------------------------- end to end: the real server builds the proof
+
+const E2E_BASE: u64 = 1 << 33;
+
+fn from_name(n: &Name) -> Nm {
+    n.iter().map(|l| l.to_vec()).collect()
+}
+
+fn to_rdata(t: u16, apex: &Nm) -> Option<RData> {
+    use hickory_net::proto::rr::rdata::{AAAA, CNAME, MX, NS, SOA, TXT};
+    Some(match t {
+        T_A => RData::A(rdata::A::new(192, 0, 2, 1)),
+        T_AAAA => RData::AAAA(AAAA::new(0x2001, 0xdb8, 0, 0, 0, 0, 0, 1)),
+        T_TXT => RData::TXT(TXT::new(vec!["t".to_string()])),
+        T_MX => RData::MX(MX::new(10, to_name(&with(b"mx", apex)))),
+        T_NS => RData::NS(NS(to_name(&with(b"ns", apex)))),
+        T_CNAME => RData::CNAME(CNAME(to_name(&with(b"target", apex)))),
+        T_DS => RData::DNSSEC(DNSSECRData::DS(DS::new(7, Algorithm::ED25519, DigestType::SHA256, vec![7; 32]))),
+        T_SOA => RData::SOA(SOA::new(to_name(&with(b"ns", apex)), to_name(&with(b"admin", apex)), 1, 3600, 300, 36000, 60)),
+        _ => return None,
+    })
+}
+
+struct Served {
+    ctx: VerifContext<Catalog>,
+    /// the NSEC3 RRs the server generated
+    chain: Vec<Rec>,
+}
+
+fn serve(rt: &tokio::runtime::Runtime, z: &Zone) -> Served {
+    let oname = to_name(&z.apex);
+    let kind = NxProofKind::Nsec3 {
+        algorithm: Nsec3HashAlgorithm::SHA1,
+        salt: Arc::from(z.salt.clone().into_boxed_slice()),
+        iterations: z.iter,
+        opt_out: z.optout,
+    };
+    let mut hd = InMemoryZoneHandler::<hickory_net::runtime::TokioRuntimeProvider>::empty(
+        oname.clone(),
+        ZoneType::Primary,
+        AxfrPolicy::Deny,
+        Some(kind),
+    );
+    for (n, ts) in &z.rrs {
+        for t in ts {
+            if let Some(rd) = to_rdata(*t, &z.apex) {
+                hd.upsert_mut(Record::from_rdata(to_name(n), 300, rd), 1);
+            }
+        }
+    }
+    let key = Ed25519SigningKey::from_pkcs8(&Ed25519SigningKey::generate_pkcs8().expect("keygen")).expect("key");
+    hd.add_zone_signing_key_mut(DnssecSigner::new(
+        DNSKEY::from_key(&key.to_public_key().expect("public key")),
+        Box::new(key),
+        oname.clone(),
+        std::time::Duration::from_secs(3600),
+    ))
+    .expect("add key");
+    hd.secure_zone_mut().expect("sign");
+    let chain: Vec<Rec> = rt.block_on(async {
+        hd.records()
+            .await
+            .iter()
+            .filter(|(k, _)| u16::from(k.record_type) == 50)
+            .flat_map(|(_, set)| set.records_without_rrsigs().cloned().collect::<Vec<_>>())
+            .filter_map(|r| rec_of_record(&r))
+            .collect()
+    });
+    let mut catalog = Catalog::new();
+    catalog.upsert(LowerName::from(&oname), vec![Arc::new(hd) as Arc<dyn ZoneHandler>]);
+    Served { ctx: VerifContext::new(catalog, vec![], vec![]), chain }
+}
+
+fn rec_of_record(r: &Record) -> Option<Rec> {
+    match &r.data {
+        RData::DNSSEC(DNSSECRData::NSEC3(n)) => {
+            let mut types: Vec<u16> = n.type_bit_maps().map(u16::from).collect();
+            types.sort();
+            Some(Rec {
+                owner: from_name(&r.name),
+                optout: n.opt_out(),
+                iter: n.iterations(),
+                salt: n.salt().to_vec(),
+                next: n.next_hashed_owner_name().to_vec(),
+                types,
+            })
+        }
+        _ => None,
+    }
+}
+
+fn wire_query(q: &Nm, qt: u16) -> Vec<u8> {
+    let mut v = vec![0x12, 0x34, 0x01, 0x00, 0, 1, 0, 0, 0, 0, 0, 1];
+    for l in q {
+        v.push(l.len() as u8);
+        v.extend(l);
+    }
+    v.push(0);
+    v.extend(qt.to_be_bytes());
+    v.extend([0, 1]);
+    // OPT: root, type 41, udp 1232, ext-rcode 0, version 0, DO, rdlen 0
+    v.extend([0, 0, 41, 0x04, 0xd0, 0, 0, 0x80, 0, 0, 0]);
+    v
+}
+
+fn ask(rt: &tokio::runtime::Runtime, sv: &Served, q: &Nm, qt: u16) -> Result<Message, String> {
+    let addr = SocketAddr::new(IpAddr::V4(Ipv4Addr::new(192, 0, 2, 7)), 5353);
+    let (handle, rx) = BufDnsStreamHandle::new(addr);
+    let bytes = wire_query(q, qt);
+    let replies: Vec<Vec<u8>> = rt.block_on(async {
+        sv.ctx.handle_raw_request(SerialMessage::new(bytes, addr), Protocol::Udp, handle).await;
+        rx.map(|m| m.into_parts().0).collect::<Vec<_>>().await
+    });
+    if replies.len() != 1 {
+        return Err(format!("{} replies", replies.len()));
+    }
+    Message::from_vec(&replies[0]).map_err(|e| format!("reply does not decode: {e}"))
+}
+
+/// differences between the server's NSEC3 chain and the RFC 5155 7.1 chain of the zone
+fn chain_diff(z: &Zone, served: &[Rec]) -> Option<(String, bool)> {
+    let d = chain_diff_with(&z.chain_opt(false), served)?;
+    Some((d, chain_diff_with(&z.chain_opt(true), served).is_none()))
+}
+fn chain_diff_with(rfc: &[(Nm, Rec)], served: &[Rec]) -> Option<String> {
+    let ignore = [T_RRSIG, T_DNSKEY, T_NSEC3PARAM];
+    let norm = |r: &Rec| {
+        let mut t: Vec<u16> = r.types.iter().copied().filter(|x| !ignore.contains(x)).collect();
+        t.sort();
+        (lower(&r.owner), r.next.clone(), r.optout, r.iter, r.salt.clone(), t)
+    };
+    let mut a: Vec<_> = rfc.iter().map(|(_, r)| norm(r)).collect();
+    let mut b: Vec<_> = served.iter().map(norm).collect();
+    a.sort();
+    b.sort();
+    if a == b {
+        return None;
+    }
+    let names: BTreeMap<Nm, Nm> = rfc.iter().map(|(n, r)| (lower(&r.owner), n.clone())).collect();
+    let only_rfc: Vec<String> = a.iter().filter(|x| !b.contains(x)).map(|x| show_name(names.get(&x.0).unwrap_or(&x.0))).collect();
+    let only_srv: Vec<String> = b.iter().filter(|x| !a.contains(x)).map(|x| format!("{} types={:?}", show_name(names.get(&x.0).unwrap_or(&x.0)), x.5)).collect();
+    Some(format!("only in RFC chain: {:?}; only/different in server chain: {:?}", only_rfc, only_srv))
+}
+
+struct E2e {
+    p: Probe,
+    chain_diff: Option<(String, bool)>,
+    note: String,
+}
+
+/// fixed end-to-end cases: (tag, zone rrs, apex, salt hex, iterations, opt-out, qname, qtype)
+const E2E_CORPUS_BASE: u64 = 1 << 31;
+const E2E_CORPUS: &[(&str, &str, &str, &str, u16, bool, &str, u16)] = &[
+    // the server's chain lacks the empty non-terminal *.z.
+    ("E0-chain-star-ent", "a.*.z:15 z:1,2,6,15", "z", "aabbccdd", 0, false, "b.z", 1),
+    // a plain positive answer carries the NSEC3 matching QNAME and is then Bogus
+    ("E1-positive-answer", "b.z:1 z:2,6", "z", "", 0, false, "b.z", 1),
+    // NXDOMAIN for QTYPE DS: no cover for the wildcard at the closest encloser
+    ("E2-nxdomain-ds", "a.c.a.z:15 b.a.b.z:1 z:2,6", "z", "", 0, false, "a.a.a.c.a.z", 43),
+    // accepted negative answers
+    ("E3-nxdomain", "a.c.a.z:15 b.a.b.z:1 z:2,6", "z", "", 0, false, "a.a.a.c.a.z", 1),
+    ("E4-nodata", "b.z:1 z:2,6", "z", "ab", 1, false, "b.z", 15),
+    ("E5-wildcard-nodata", "*.b.z:1 z:2,6", "z", "", 2, false, "x.b.z", 15),
+    ("E6-wildcard-answer", "*.b.z:1 z:2,6", "z", "", 2, false, "x.b.z", 1),
+];
+
+fn e2e_probe(rt: &tokio::runtime::Runtime, seed: u64, k: u64) -> E2e {
+    let (z, q, qt) = if k >= E2E_CORPUS_BASE {
+        let (_, rrs, apex, salt, iter, optout, q, qt) = E2E_CORPUS[(k - E2E_CORPUS_BASE) as usize];
+        let mut m: BTreeMap<Nm, BTreeSet<u16>> = BTreeMap::new();
+        for item in rrs.split_whitespace() {
+            let (n, ts) = item.split_once(':').unwrap();
+            m.insert(pn(n), ts.split(',').map(|t| t.parse().unwrap()).collect());
+        }
+        (Zone { apex: pn(apex), rrs: m, salt: unhex(salt), iter, optout }, pn(q), qt)
+    } else {
+        let mut r = Rng::for_case(seed ^ 0xE2E, k / 4);
+        let mut z = gen_zone(&mut r);
+        // types the store can hold here; DNAME is left to the generated families
+        for ts in z.rrs.values_mut() {
+            ts.remove(&T_DNAME);
+        }
+        z.rrs.retain(|_, ts| !ts.is_empty());
+        let mut r = Rng::for_case(seed ^ 0xE2E5, k);
+        let q = gen_qname(&mut r, &z);
+        let qt = *r.pick(&[T_A, T_A, T_DS, T_MX, T_TXT, T_AAAA, T_NS, T_CNAME]);
+        (z, q, qt)
+    };
+    let sv = serve(rt, &z);
+    let cd = chain_diff(&z, &sv.chain);
+    let (input, note) = match ask(rt, &sv, &q, qt) {
+        Err(e) => (
+            Input { q: q.clone(), qt, soa: None, rcode: 2, answers: vec![], recs: vec![], soft: 100, hard: 500 },
+            format!("no usable reply: {e}"),
+        ),
+        Ok(m) => {
+            let soa = m.authorities.iter().find(|x| x.record_type() == RecordType::SOA).map(|x| from_name(&x.name));
+            let answers: Vec<Option<u8>> = m
+                .answers
+                .iter()
+                .map(|x| match &x.data {
+                    RData::DNSSEC(DNSSECRData::RRSIG(sig)) => Some(sig.input().num_labels),
+                    _ => None,
+                })
+                .collect();
+            let recs: Vec<Rec> = m.authorities.iter().filter_map(rec_of_record).collect();
+            let ans_types: BTreeSet<u16> = m.answers.iter().map(|x| u16::from(x.record_type())).collect();
+            let auth_types: BTreeSet<u16> = m.authorities.iter().map(|x| u16::from(x.record_type())).collect();
+            let rc = u16::from(m.metadata.response_code) & 0xf;
+            (
+                Input { q: q.clone(), qt, soa, rcode: rc, answers, recs, soft: 100, hard: 500 },
+                format!("aa={} answer types={:?} authority types={:?}", m.metadata.authoritative as u8, ans_types, auth_types),
+            )
+        }
+    };
+    E2e { p: Probe { z, i: input, kind: "e2e".to_string(), genuine: true, ideal: false }, chain_diff: cd, note }
+}
+
+fn e2e_case(rt: &tokio::runtime::Runtime, seed: u64, index: u64) -> CaseOut {
+    let e = e2e_probe(rt, seed, index - E2E_BASE);
+    let p = &e.p;
+    let obs = if p.i.recs.is_empty() { 5 } else { run_impl(&p.i) };
+    let mut oracle_fail = None;
+    let mut known = None;
+    let wl = p.i.answers.iter().find_map(|a| *a);
+    let positive = p.i.rcode == 0 && !p.i.answers.is_empty() && wl.map(|w| w as usize >= nlabels(&p.i.q)).unwrap_or(true);
+    let referral = p.i.rcode == 0 && p.i.answers.is_empty() && p.z.cut_of(&lower(&p.i.q)).is_some();
+    let shape = if p.i.recs.is_empty() {
+        "no-nsec3"
+    } else if positive {
+        "positive+nsec3"
+    } else if referral {
+        "referral"
+    } else if p.i.rcode == 3 {
+        "nxdomain"
+    } else if wl.is_some() {
+        "wildcard-answer"
+    } else {
+        "nodata"
+    };
+    if let Some((d, star_ent_only)) = &e.chain_diff {
+        oracle_fail = Some(format!("server NSEC3 chain differs from the RFC 5155 7.1 chain of the zone: {d}"));
+        known = if *star_ent_only { Some("C09-server-chain-star-ent".to_string()) } else { None };
+    } else if !p.i.recs.is_empty() && obs != 5 && !referral {
+        let (f, k) = oracle(p, obs);
+        let claim_ok = claim_holds(&p.z, &p.i).is_ok() && !any_hidden(&p.z, &p.z.chain(), &lower(&p.i.q));
+        if f.is_some() {
+            oracle_fail = f;
+            known = k;
+        } else if obs != 0 && claim_ok {
+            oracle_fail = Some(format!(
+                "incomplete end to end: the server's own {shape} response with its NSEC3 proof is not accepted (verdict {})",
+                ["Secure", "Insecure", "Bogus", "PANIC", "Indeterminate"][obs as usize]
+            ));
+            known = match shape {
+                "positive+nsec3" => Some("C09-e2e-positive-answer-nsec3".to_string()),
+                "nxdomain" if p.i.qt == T_DS => Some("C09-e2e-nxdomain-ds-no-wildcard-cover".to_string()),
+                _ => None,
+            };
+        }
+    }
+    let zone_txt: Vec<String> = p.z.rrs.iter().map(|(n, t)| format!("{}:{:?}", show_name(n), t)).collect();
+    let text = format!(
+        "[e2e {}] verdict={} {} | {} | zone apex={} salt={} it={} optout={} rrs={{{}}}",
+        shape,
+        ["Secure", "Insecure", "Bogus", "PANIC", "Indeterminate", "-"][obs as usize],
+        show_input(&p.i),
+        e.note,
+        show_name(&p.z.apex),
+        hex(&p.z.salt),
+        p.z.iter,
+        p.z.optout as u8,
+        zone_txt.join(" ")
+    );
+    // cases without NSEC3 records never reach verify_nsec3: ship a trivial case for the model (empty list = panic)
+    let coq = if p.i.recs.is_empty() { coq_case(&p.i, 3) } else { coq_case(&p.i, obs) };
+    CaseOut {
+        index,
+        coq,
+        text,
+        key: format!("e2e {}", show_input(&p.i)),
+        nontrivial: !p.i.recs.is_empty(),
+        kind: format!("e2e-{}/{}", shape, ["secure", "insecure", "bogus", "panic", "indet", "none"][obs as usize]),
+        oracle_fail,
+        known,
+    }
+}
+
+fn probe(seed: u64, index: u64) -> Probe {
+    if index >= CORPUS_BASE {
+        corpus_probe((index - CORPUS_BASE) as usize)
+    } else {
+        gen_probe(seed, index)
+    }
+}
+
 fn case(seed: u64, index: u64) -> CaseOut {
-    let p = gen_probe(seed, index);
+    let p = probe(seed, index);
     let obs = run_impl(&p.i);
     let (oracle_fail, known) = oracle(&p, obs);
     let zone_txt: Vec<String> = p.z.rrs.iter().map(|(n, t)| format!("{}:{:?}", show_name(n), t)).collect();
@@ -1185,7 +1616,15 @@ fn gallina(p: &Probe) -> String {
             coq_list(r.types.iter().map(|t| t.to_string()))
         )
     }));
-    let tbl = coq_list(table(i).iter().map(|(n, hh)| format!("({}, {})", g_name(n), g_bytes(hh))));
+    let f = i.recs.first().expect("records");
+    let lq = lower(&i.q);
+    let mut full = vec![];
+    for k in 0..=lq.len() {
+        let s = lq[k..].to_vec();
+        full.push((s.clone(), h(&f.salt, f.iter, &s)));
+        full.push((star(&s), h(&f.salt, f.iter, &star(&s))));
+    }
+    let tbl = coq_list(full.iter().map(|(n, hh)| format!("({}, {})", g_name(n), g_bytes(hh))));
     let zone = coq_list(p.z.chain().iter().map(|(n, r)| {
         format!("({}, {})", g_name(n), coq_list(r.types.iter().map(|t| t.to_string())))
     }));
@@ -1229,12 +1668,15 @@ fn main() {
     quiet_panics();
     let args = parse_args();
     self_test();
+    let rt = tokio::runtime::Builder::new_current_thread().enable_all().build().unwrap();
     if let Some((seed, index)) = args.replay {
-        let c = case(seed, index);
+        let c = if index >= E2E_BASE { e2e_case(&rt, seed, index) } else { case(seed, index) };
         println!("{}", c.text);
         println!("COQ {}", c.coq);
         if args.extra.contains_key("gallina") {
-            println!("GALLINA {}", gallina(&gen_probe(seed, index)));
+            if index < E2E_BASE {
+                println!("GALLINA {}", gallina(&probe(seed, index)));
+            }
         }
         if let Some(f) = c.oracle_fail {
             println!("ORACLE-FAIL {f}");
@@ -1242,8 +1684,22 @@ fn main() {
         return;
     }
     let mut cases = vec![];
+    for k in 0..CORPUS.len() as u64 {
+        cases.push(case(args.seed, CORPUS_BASE + k));
+    }
     for index in 0..args.n {
         cases.push(case(args.seed, index));
+    }
+    for k in 0..E2E_CORPUS.len() as u64 {
+        cases.push(e2e_case(&rt, args.seed, E2E_BASE + E2E_CORPUS_BASE + k));
+    }
+    // end to end: about one case in eight
+    for k in 0..args.n / 8 {
+        cases.push(e2e_case(&rt, args.seed, E2E_BASE + k));
+    }
+    // one shard per parallel coqc of the driver (the fixed cost of a coqc run is loading the libraries)
+    if std::env::var("VPH_SHARD").is_err() {
+        std::env::set_var("VPH_SHARD", ((cases.len() + 15) / 16).clamp(40, 800).to_string());
     }
     emit(
         "C09",
